@@ -25,6 +25,7 @@ const (
 	AFresh    // freshly constructed non-nil error
 	ANonNil   // unknown but non-nil (make, new, closure)
 	ATuple
+	APtr       // pointer to a local struct object (Obj): identity flows through calls, fields are read from the per-object field table
 	AContainer // a non-nil map/slice/array whose elements are known abstractly: Tup[0] is the default element, Keys the elements at constant keys; flows through calls with the container value
 	ATop
 )
@@ -36,6 +37,7 @@ type AVal struct {
 	G   *ssa.Global
 	Tup []AVal
 	Keys map[string]AVal
+	Obj  *ssa.Alloc
 }
 
 // containerOf builds a container value: every element is def except those at the given constant keys.
@@ -118,6 +120,8 @@ func (a AVal) String() string {
 		return "err:fresh"
 	case ANonNil:
 		return "nonnil"
+	case APtr:
+		return fmt.Sprintf("&obj@%s#%d", a.Obj.Parent().Name(), a.Obj.Pos())
 	case AContainer:
 		var ks []string
 		for k, v := range a.Keys {
@@ -154,6 +158,8 @@ func aEq(a, b AVal) bool {
 		return a.G == b.G
 	case AContainer:
 		return a.String() == b.String()
+	case APtr:
+		return a.Obj == b.Obj
 	case ATuple:
 		if len(a.Tup) != len(b.Tup) {
 			return false
@@ -187,7 +193,7 @@ func join(a, b AVal) AVal {
 	}
 	// non-nil-ness survives the join of non-nil things
 	nn := func(x AVal) bool {
-		return x.K == ANonNil || x.K == AContainer || x.K == AFresh || x.K == ASentinel || (x.K == AConst && x.C != nil && x.C.Kind() == constant.String)
+		return x.K == ANonNil || x.K == AContainer || x.K == APtr || x.K == AFresh || x.K == ASentinel || (x.K == AConst && x.C != nil && x.C.Kind() == constant.String)
 	}
 	if nn(a) && nn(b) {
 		return nonNil
@@ -232,10 +238,14 @@ type fnState struct {
 	rets   map[*ssa.Return][]AVal
 	result AVal
 	escapes []string
+	free    map[*ssa.FreeVar]AVal // values of captured variables at the closure's creation (closures called in place)
+	callees map[ssa.Instruction]*fnState // state of the callee analysed for a call site (last evaluation)
 }
 
 type SCCP struct {
-	rootFn *ssa.Function
+	objFields map[*ssa.Alloc]map[int]AVal // values stored into the fields of local struct objects (flow-insensitive per object)
+	rootFn   *ssa.Function
+	nextFree map[*ssa.FreeVar]AVal
 	c       *Ctx
 	sc      *Scenario
 	globals map[*ssa.Global]AVal
@@ -382,7 +392,7 @@ func (s *SCCP) compare(op token.Token, a, b AVal) AVal {
 		return cBool(!eq)
 	}
 	if op == token.EQL || op == token.NEQ {
-		nonnil := func(x AVal) bool { return x.K == ASentinel || x.K == AFresh || x.K == ANonNil || x.K == AContainer }
+		nonnil := func(x AVal) bool { return x.K == ASentinel || x.K == AFresh || x.K == ANonNil || x.K == AContainer || x.K == APtr }
 		if a.isNil() && b.isNil() {
 			return res(true)
 		}
@@ -666,7 +676,18 @@ func (s *SCCP) run(fn *ssa.Function, args []AVal, depth int) *fnState {
 	if depth == 0 && s.rootFn == nil {
 		s.rootFn = fn
 	}
+	free := s.nextFree
+	s.nextFree = nil
 	key := argsKey(fn, args)
+	if len(free) > 0 {
+		var fk []string
+		for _, fv := range fn.FreeVars {
+			if v, ok := free[fv]; ok {
+				fk = append(fk, fv.Name()+"="+v.String())
+			}
+		}
+		key += "{" + strings.Join(fk, ",") + "}"
+	}
 	if st, ok := s.memo[key]; ok {
 		return st
 	}
@@ -675,7 +696,7 @@ func (s *SCCP) run(fn *ssa.Function, args []AVal, depth int) *fnState {
 	}
 	s.busy[key] = true
 	defer delete(s.busy, key)
-	st := &fnState{fn: fn, args: args, val: map[ssa.Value]AVal{}, execB: map[*ssa.BasicBlock]bool{}, execE: map[[2]int]bool{}, rets: map[*ssa.Return][]AVal{}}
+	st := &fnState{fn: fn, args: args, val: map[ssa.Value]AVal{}, execB: map[*ssa.BasicBlock]bool{}, execE: map[[2]int]bool{}, rets: map[*ssa.Return][]AVal{}, free: free}
 	for i, p := range fn.Params {
 		v := top
 		if i < len(args) {
@@ -805,6 +826,27 @@ func (s *SCCP) run(fn *ssa.Function, args []AVal, depth int) *fnState {
 						changed = true
 					}
 				default:
+					// a store into a field of a local struct object: remembered per object for readers elsewhere
+					if sto, ok := ins.(*ssa.Store); ok {
+						if fa, ok := sto.Addr.(*ssa.FieldAddr); ok {
+							if pv := get(fa.X); pv.K == APtr {
+								if s.objFields == nil {
+									s.objFields = map[*ssa.Alloc]map[int]AVal{}
+								}
+								if s.objFields[pv.Obj] == nil {
+									s.objFields[pv.Obj] = map[int]AVal{}
+								}
+								nv := get(sto.Val)
+								if old, had := s.objFields[pv.Obj][fa.Field]; had {
+									nv = join(old, nv)
+								}
+								if old, had := s.objFields[pv.Obj][fa.Field]; !had || !aEq(old, nv) || old.K != nv.K {
+									s.objFields[pv.Obj][fa.Field] = nv
+									changed = true
+								}
+							}
+						}
+					}
 					// Store, MapUpdate, Send, Defer, Go, RunDefers, DebugRef: no value
 					if ci, ok := ins.(ssa.CallInstruction); ok {
 						_ = ci
@@ -889,32 +931,26 @@ func (s *SCCP) eval(st *fnState, v ssa.Value, get func(ssa.Value) AVal, depth in
 				}
 				return top
 			}
-			// load of a local that is only stored once with a known value (spilled variable)
-			if al, ok := x.X.(*ssa.Alloc); ok {
-				a := bot
-				n := 0
-				if refs := al.Referrers(); refs != nil {
-					for _, r := range *refs {
-						switch y := r.(type) {
-						case *ssa.Store:
-							if y.Addr == al && st.execB[y.Block()] {
-								a = join(a, get(y.Val))
-								n++
-							}
-						case *ssa.UnOp, *ssa.DebugRef:
-						case *ssa.MakeClosure:
-							// captured by a closure that only reads it: still assigned once
-							if closureWrites(y, al) {
-								return top
-							}
-						default:
-							return top // address escapes (field access, call argument)
+			if fa, ok := x.X.(*ssa.FieldAddr); ok {
+				// a field of a local struct object reached through a pointer that is not the object's own Alloc
+				// (a parameter of a helper, a phi): read the per-object field table
+				if _, own := fa.X.(*ssa.Alloc); !own {
+					if pv := get(fa.X); pv.K == APtr {
+						if v, ok := s.objFields[pv.Obj][fa.Field]; ok {
+							return v
 						}
 					}
 				}
-				if n > 0 && a.K != ABot {
-					return a
+			}
+			if fv, ok := x.X.(*ssa.FreeVar); ok {
+				if v, ok := st.free[fv]; ok {
+					return v
 				}
+				return top
+			}
+			// load of a local that is only stored once with a known value (spilled variable)
+			if al, ok := x.X.(*ssa.Alloc); ok {
+				return s.loadLocal(st, al, get)
 			}
 			return top
 		case token.NOT:
@@ -1018,7 +1054,14 @@ func (s *SCCP) eval(st *fnState, v ssa.Value, get func(ssa.Value) AVal, depth in
 			return cv.elemAt(get(x.Index))
 		}
 		return top
-	case *ssa.FieldAddr, *ssa.IndexAddr, *ssa.Alloc, *ssa.MakeMap, *ssa.MakeSlice, *ssa.MakeChan, *ssa.MakeClosure:
+	case *ssa.Alloc:
+		if p, ok := x.Type().Underlying().(*types.Pointer); ok {
+			if _, isStruct := p.Elem().Underlying().(*types.Struct); isStruct {
+				return AVal{K: APtr, Obj: x}
+			}
+		}
+		return nonNil
+	case *ssa.FieldAddr, *ssa.IndexAddr, *ssa.MakeMap, *ssa.MakeSlice, *ssa.MakeChan, *ssa.MakeClosure:
 		return nonNil
 	case *ssa.Slice:
 		if cv := get(x.X); cv.K == AContainer {
@@ -1089,7 +1132,7 @@ func (s *SCCP) evalCall(st *fnState, x *ssa.Call, get func(ssa.Value) AVal, dept
 	}
 	v := s.evalCall1(st, x, get, depth)
 	isHelper := false
-	if sc := cc.StaticCallee(); sc != nil && isNewHelper(sc) {
+	if sc := cc.StaticCallee(); sc != nil && sameLogicalFunction(sc, st.fn) {
 		_, bound := s.callBinding(st.fn, cc)
 		isHelper = !bound // its result was computed from its body under the same scenario
 	}
@@ -1151,7 +1194,7 @@ func (s *SCCP) evalCall1(st *fnState, x *ssa.Call, get func(ssa.Value) AVal, dep
 		return fresh
 	}
 	sc := cc.StaticCallee()
-	if sc != nil && fnInModule(sc) && sc.Blocks != nil && (depth < s.sc.MaxDepth || isNewHelper(sc)) && !s.sc.NoInline[name] && !s.sc.NoInline[shortCallee(cc)] {
+	if sc != nil && fnInModule(sc) && sc.Blocks != nil && (depth < s.sc.MaxDepth || sameLogicalFunction(sc, st.fn)) && !s.sc.NoInline[name] && !s.sc.NoInline[shortCallee(cc)] {
 		var args []AVal
 		for _, a := range cc.Args {
 			args = append(args, get(a))
@@ -1161,11 +1204,28 @@ func (s *SCCP) evalCall1(st *fnState, x *ssa.Call, get func(ssa.Value) AVal, dep
 				return bot
 			}
 		}
+		if mc, ok := cc.Value.(*ssa.MakeClosure); ok && mc.Parent() == st.fn {
+			fv := map[*ssa.FreeVar]AVal{}
+			for i, b := range mc.Bindings {
+				if i >= len(sc.FreeVars) {
+					break
+				}
+				if al, ok := b.(*ssa.Alloc); ok && !closureWrites(mc, al) {
+					// the captured variable as the creating function sees it (single-assignment locals and spilled parameters)
+					fv[sc.FreeVars[i]] = s.loadLocal(st, al, get)
+				}
+			}
+			s.nextFree = fv
+		}
 		nd := depth + 1
-		if isNewHelper(sc) {
-			nd = depth // a helper split off from a reference function is analysed as part of its caller
+		if sameLogicalFunction(sc, st.fn) {
+			nd = depth // a helper split off from a reference function, or a closure of the caller, is analysed as part of its caller
 		}
 		if cs := s.run(sc, args, nd); cs != nil {
+			if st.callees == nil {
+				st.callees = map[ssa.Instruction]*fnState{}
+			}
+			st.callees[x] = cs
 			if cs.result.K == ABot {
 				// callee never returns under these arguments (or only via panic)
 				return tupleOfTop(cc.Signature())
@@ -1216,12 +1276,16 @@ func (s *SCCP) analyse(fn *ssa.Function, args []AVal) *Trace {
 					lc.Result = st.val[v]
 				}
 				t.Calls = append(t.Calls, lc)
-				if sc := cc.StaticCallee(); sc != nil && fnInModule(sc) && sc.Blocks != nil && (depth < s.sc.MaxDepth || isNewHelper(sc)) {
+				if sc := cc.StaticCallee(); sc != nil && fnInModule(sc) && sc.Blocks != nil && (depth < s.sc.MaxDepth || sameLogicalFunction(sc, st.fn)) {
 					if _, bound := s.callBinding(st.fn, cc); bound || s.sc.NoInline[lc.Callee] || s.sc.NoInline[lc.Short] {
 						continue
 					}
-					if cs, ok := s.memo[argsKey(sc, lc.Args)]; ok {
-						if isNewHelper(sc) {
+					cs, ok := st.callees[ins]
+					if !ok {
+						cs, ok = s.memo[argsKey(sc, lc.Args)]
+					}
+					if ok {
+						if sameLogicalFunction(sc, st.fn) {
 							walk(cs, depth)
 						} else {
 							walk(cs, depth+1)
@@ -1606,4 +1670,43 @@ func closureWrites(mc *ssa.MakeClosure, al ssa.Value) bool {
 		}
 	}
 	return false
+}
+
+// sameLogicalFunction: callee is a helper the reference tree does not have, or a closure declared inside the caller
+// (or inside the caller's enclosing function): its body is analysed as part of the caller.
+func sameLogicalFunction(callee, caller *ssa.Function) bool {
+	if isNewHelper(callee) {
+		return true
+	}
+	return callee.Parent() != nil && sameTop(callee, caller)
+}
+
+// loadLocal: the value of a local slot as the function sees it: the join of the executed stores, provided its address
+// goes nowhere except loads, stores and closures that only read it.
+func (s *SCCP) loadLocal(st *fnState, al *ssa.Alloc, get func(ssa.Value) AVal) AVal {
+	a := bot
+	n := 0
+	if refs := al.Referrers(); refs != nil {
+		for _, r := range *refs {
+			switch y := r.(type) {
+			case *ssa.Store:
+				if y.Addr == al && st.execB[y.Block()] {
+					a = join(a, get(y.Val))
+					n++
+				}
+			case *ssa.UnOp, *ssa.DebugRef:
+			case *ssa.MakeClosure:
+				// captured by a closure that only reads it: still assigned once
+				if closureWrites(y, al) {
+					return top
+				}
+			default:
+				return top // address escapes (field access, call argument)
+			}
+		}
+	}
+	if n > 0 && a.K != ABot {
+		return a
+	}
+	return top
 }
